@@ -10,7 +10,7 @@ from .. import symtrace as st, common
 from ..gen_lean import Def
 from ..runner import Corr, Failure
 
-LEAN_MODULES = ['SvgVerif.Props.C04']
+LEAN_MODULES = ['SvgVerif.Props.C04', 'SvgVerif.Props.C04Param']
 ARGS = ['theta', 'delta', 'rx', 'ry', 'cphi', 'sphi', 'rot', 'cx', 'cy', 'pi', 't']
 
 
@@ -51,6 +51,98 @@ ASSUMPTIONS = [
     'point/derivative theorems are about an Arc whose derived parameters are symbols; that _parameterize computes the F.6.5 centre, radii and angles is checked against an independent reference implementation by the sampler (plus the Lean lemma theta_correct for the start-angle case split), not proved end to end',
     'numpy cos/sin/arccos/sqrt are Real.cos/Real.sin/... ; the 1e-8 snap band of the radicand and np.clip are float devices outside the theorems',
 ]
+
+
+def _run_parameterize_exact(spt, sx, sy, ex, ey, rx, ry, wx, wy, large, sweep):
+    """runs the REAL Arc._parameterize on exact rationals (exactnum.Q / QC); sqrt, degrees(acos(.)), np.isclose, np.clip
+    and exp(1j*phi) are replaced from outside by exact stand-ins (the Lean driver uses the same ones)"""
+    from ..exactnum import Q, QC, sqrt_standin
+    P = spt.path
+    arc = P.Arc.__new__(P.Arc)
+    arc.start, arc.end = QC(sx, sy), QC(ex, ey)
+    arc.radius = QC(rx, ry)
+    arc.rotation = 0.0
+    arc.large_arc, arc.sweep = bool(large), bool(sweep)
+    arc.autoscale_radius = True
+    arc.segment_length_hash = None
+    arc.segment_length = None
+    w = QC(wx, wy)
+
+    class Phi(object):
+        """stands for the angle phi: only `1j*phi` (or `-1j*phi`) is ever formed from it, and only exp() consumes that"""
+        def __init__(self, sign=None):
+            self.sign = sign
+
+        def __rmul__(self, c):
+            assert isinstance(c, complex) and c.real == 0 and c.imag in (1.0, -1.0), c
+            return Phi(int(c.imag))
+        __mul__ = __rmul__
+
+    def my_exp(z):
+        assert isinstance(z, Phi) and z.sign in (1, -1), z
+        return w if z.sign == 1 else w.conjugate()
+    arc.phi = Phi()
+    arc.rot_matrix = w
+    saved = (P.sqrt, P.acos, P.degrees, P.exp, P.np.isclose, P.np.clip)
+    try:
+        P.sqrt = sqrt_standin
+        P.acos = lambda x: (1 - x) * 90
+        P.degrees = lambda x: x
+        P.exp = my_exp
+        P.np.isclose = lambda a, b, *r, **k: abs(a - b) <= Fr(1, 10 ** 8)
+        P.np.clip = lambda x, lo, hi: (Q(lo) if x < lo else (Q(hi) if x > hi else x))
+        arc._parameterize()
+    finally:
+        P.sqrt, P.acos, P.degrees, P.exp, P.np.isclose, P.np.clip = saved
+    return arc
+
+
+def correspond(ctx):
+    """Arc._parameterize, the real method, on exact rational inputs against Model.ArcParam.parameterize"""
+    from ..exactnum import Q, QC, qstr
+    spt = ctx.spt
+    r = ctx.rng('corr/param')
+    c = Corr('Arc._parameterize')
+    lines, impl = [], []
+    units = [(Fr(3, 5), Fr(4, 5)), (Fr(5, 13), Fr(12, 13)), (Fr(-8, 17), Fr(15, 17)), (Fr(1), Fr(0)), (Fr(0), Fr(1)), (Fr(-1), Fr(0)),
+             (Fr(0), Fr(-1)), (Fr(7, 25), Fr(-24, 25)), (Fr(-20, 29), Fr(-21, 29)), (Fr(-3, 5), Fr(4, 5)), (Fr(12, 13), Fr(-5, 13))]
+    rq = lambda lo=-6, hi=6: Fr(r.randint(lo, hi), r.choice([1, 1, 2, 4]))
+    for it in range(ctx.n(400, 6000)):
+        cls = r.choice(['on-ellipse', 'on-ellipse', 'on-ellipse', 'antipodal-exact', 'antipodal-too-small', 'generic', 'generic-too-small', 'snap-band'])
+        w = r.choice(units)
+        large, sweep = r.random() < 0.5, r.random() < 0.5
+        cx, cy = rq(), rq()
+        rx, ry = Fr(r.randint(1, 6), r.choice([1, 2])), Fr(r.randint(1, 6), r.choice([1, 2]))
+        u1, u2 = r.sample(units, 2)
+
+        def pt(u):
+            # c + w * (rx*ux + i*ry*uy)
+            zx, zy = rx * u[0], ry * u[1]
+            return (cx + w[0] * zx - w[1] * zy, cy + w[0] * zy + w[1] * zx)
+        if cls == 'on-ellipse':
+            s, e = pt(u1), pt(u2)
+            grx, gry = rx, ry
+        elif cls in ('antipodal-exact', 'antipodal-too-small', 'snap-band'):
+            s, e = pt(u1), pt((-u1[0], -u1[1]))
+            k = {'antipodal-exact': Fr(1), 'antipodal-too-small': Fr(r.randint(2, 5)), 'snap-band': Fr(1)}[cls]
+            grx, gry = rx / k, ry / k
+            if cls == 'snap-band':
+                f = 1 + Fr(r.choice([1, 3, 40, 400]), 10 ** 9)     # radii a hair too large: radicand around 1e-9 .. 1e-6
+                grx, gry = rx * f, ry * f
+        else:
+            s, e = (rq(), rq()), (rq(), rq())
+            grx, gry = (rx, ry) if cls == 'generic' else (rx / 8, ry / 8)
+        if s == e:
+            continue
+        args = [s[0], s[1], e[0], e[1], grx, gry, w[0], w[1]]
+        arc = _run_parameterize_exact(spt, *args, large, sweep)
+        rad = arc.radius
+        out = [rad.real, rad.imag, arc.center.real, arc.center.imag, arc.theta, arc.delta]
+        lines.append('arcparam %s %d %d' % (' '.join(qstr(Q(a)) for a in args), int(large), int(sweep)))
+        impl.append(' '.join(qstr(Q(Fr(float(v))) if isinstance(v, float) else v) for v in out))
+        c.count('%s/%s%s' % (cls, 'L' if large else 's', 'S' if sweep else 'n'))
+    c.compare(lines, [m.strip() for m in common.driver(lines)], impl)
+    return [c]
 
 
 def ref_arc(start, radius, rotation, large, sweep, end):
